@@ -56,6 +56,7 @@ THEOREMS = [
     'C17_facet_check_exact',
     'C17_facet_zero_refuted',
     'C17_fill_array_short_rejected',
+    'C17_fill_array_short_rejected_gen',
     'C17_fill_array_length_exact',
     'C17_fill_array_surplus_3_refuted',
     'C17_imp_unequal_rejected',
